@@ -94,7 +94,9 @@ def thresholds(c: t.Any) -> t.List[t.Any]:
 
 NUM_INNER = [('s', 'int'), ('s', 'float'), ('sub', 'int')]
 LEN_INNER = [('s', 'str'), ('seq', 'List', ('s', 'int')), ('seq', 'TupleVar', ('s', 'int')), ('seq', 'Set', ('s', 'int')),
-             ('map', 'Dict', ('s', 'str'), ('s', 'int')), ('s', 'bytes'), ('seq', 'list_bare')]
+             ('map', 'Dict', ('s', 'str'), ('s', 'int')), ('s', 'bytes'), ('seq', 'list_bare'),
+             # PEP 585 spellings: builtin aliases are new objects every time they are written (typing's are cached)
+             ('seq', 'list', ('s', 'int')), ('seq', 'set', ('s', 'int')), ('seq', 'tuplevar', ('s', 'int')), ('map', 'dict', ('s', 'str'), ('s', 'int'))]
 ARR_INNER = [('nd', None), ('nd', 'int64'), ('nd', 'float64')]
 
 
@@ -174,7 +176,11 @@ def cases(draw) -> t.Any:
             v = {f'k{i}': i for i in range(n)}
         else:
             v = list(range(n)) if draw(st.booleans()) else [0] * n      # duplicates shrink a set
-        return [('ann', inner, tuple(conds)), v, n]
+        ann = ('ann', inner, tuple(conds))
+        if draw(st.integers(0, 2)) == 2:
+            # the annotated type as the type of a dataclass field (field types are rewritten when the class is processed)
+            return [('cls', {'fields': [{'name': 'items', 'type': ann}, {'name': 'pad', 'type': ('s', 'int'), 'default': ['value', 0]}], 'opts': {}}), {'items': v}, n]
+        return [ann, v, n]
     conds = [draw(cond_exprs(SHAPE_LEAF)) for _ in range(nconds)]
     inner = draw(st.sampled_from(ARR_INNER))
     dims = draw(st.lists(st.integers(0, 3), max_size=3))
